@@ -162,6 +162,8 @@ func (w *worker) resetPath(job *Job, pre []int8) {
 	e.stubLexer = false
 	e.outV = nil
 	e.marks = nil
+	e.vfsMarks = nil
+	e.vfsOnlyMarks = nil
 	e.stack = e.stack[:0]
 	e.envArena = e.envArena[:0]
 	e.visArena = e.visArena[:0]
